@@ -125,9 +125,9 @@ DOC_ITEMS = {
         'ensures': '''r matches Some(v) ==> v.wf() && v.start == comment_range.start
             && exists|l: int| on_line(document.line_index, document.text.spec_bytes(), comment_range.end.raw as int, l)
                 && v.end.raw == line_end(document.line_index, document.text.spec_bytes(), l + 1) /*@C19.next-line.scope-is-comment-plus-one-line*/''',
-        'proof': [(r'let line_range = document\.get_line_range\(comment_end_line \+ 1\)\?;', 'before',
+        'proof': [(r'let line_range = document\.get_line_range\(comment_end_line \+ \d\)\?;', 'before',
                    'proof { assert(document.line_index.line_offsets.len() == document.line_index.line_offsets@.len()); }   // a Vec length is a usize: `+ 1` cannot overflow'),
-                  (r'let line_range = document\.get_line_range\(comment_end_line \+ 1\)\?;', 'after', '''
+                  (r'let line_range = document\.get_line_range\(comment_end_line \+ \d\)\?;', 'after', '''
 proof {
     let li = document.line_index; let b = document.text.spec_bytes();
     lemma_line_facts(li, b, comment_end_line as int);
